@@ -81,16 +81,24 @@ def gen_config(rng, mode=None, combo=None):
         random_order = False
     if test == "WALD_SPRT" and mode == "iid" and rng.chance(0.3):
         random_order = False
-    return {"test": test, "estim": estim, "bet": bet, "u": u, "t": t, "mode": mode, "kwargs": kw,
-            "random_order": random_order}
+    cfg = {"test": test, "estim": estim, "bet": bet, "u": u, "t": t, "mode": mode, "kwargs": kw,
+           "random_order": random_order}
+    if rng.chance(0.3):
+        # the way the audit code configures its tests: built with some other bound (the default 1, the assorter's own),
+        # the bound in force assigned afterwards (test.u = ...)
+        cfg["u_init"] = rng.pick([1.0, 1.0, 2 * u, u / 2 if u / 2 > t else 4 * u])
+    return cfg
 
 
 def make_test(ns, cfg, N):
     from .world import test_fn, estim_fn, bet_fn
     n = np.inf if (N == INF or N is None) else int(N)
-    return ns.NonnegMean(test=test_fn(ns, cfg["test"]), estim=estim_fn(ns, cfg.get("estim")),
-                         bet=bet_fn(ns, cfg.get("bet")), u=cfg["u"], N=n, t=cfg["t"],
-                         random_order=cfg["random_order"], **cfg["kwargs"])
+    tst = ns.NonnegMean(test=test_fn(ns, cfg["test"]), estim=estim_fn(ns, cfg.get("estim")),
+                        bet=bet_fn(ns, cfg.get("bet")), u=cfg.get("u_init", cfg["u"]), N=n, t=cfg["t"],
+                        random_order=cfg["random_order"], **cfg["kwargs"])
+    if "u_init" in cfg:
+        tst.u = cfg["u"]
+    return tst
 
 
 def call_test(tst, x):
